@@ -25,7 +25,9 @@ class CumulativeAggregations(Expr):
             self.frame, self.axis, self.skipna, self.chunk_operation
         )
         chunks_last = TakeLast(chunks, self.skipna)
-        return CumulativeFinalize(chunks, chunks_last, self.aggregate_operation)
+        return CumulativeFinalize(
+            chunks, chunks_last, self.aggregate_operation, self.skipna
+        )
 
     def _simplify_up(self, parent, dependents):
         if isinstance(parent, Projection):
@@ -67,16 +69,38 @@ class TakeLast(Blockwise):
         return a.tail(n=1).squeeze()
 
 
-def _finalize_partition(aggregator, x, previous):
-    if previous is not None and previous.ndim == 2:
+def _combine_previous(aggregator, skipna, x, y):
+    # x: result carried over all earlier partitions, y: last row of one more
+    # partition; None means that no value has been seen so far
+    if x is None:
+        return y
+    if y is None:
+        return x
+    result = aggregator(x, y)
+    if skipna and x.ndim == 2:
+        # a column without any value so far is NaN in the one-row frame
+        result = result.where(x.notna() & y.notna(), x.fillna(y))
+    return result
+
+
+def _finalize_partition(aggregator, skipna, x, previous):
+    if previous is None:
+        return x
+    if previous.ndim == 2:
         # broadcast the one-row frame of previous results along the index of x
         previous = previous.take([0] * len(x))
         previous.index = x.index
+        result = aggregator(x, previous)
+        if skipna:
+            # nothing to carry into columns that had no value so far
+            result = result.where(previous.notna(), x)
+        return result
     return aggregator(x, previous)
 
 
 class CumulativeFinalize(Expr):
-    _parameters = ["frame", "previous_partitions", "aggregator"]
+    _parameters = ["frame", "previous_partitions", "aggregator", "skipna"]
+    _defaults = {"skipna": True}
 
     def _divisions(self):
         return self.frame._divisions()
@@ -97,14 +121,16 @@ class CumulativeFinalize(Expr):
             else:
                 # aggregate with previous cumulation results
                 dsk[(intermediate_name, i)] = (
-                    methods._cum_aggregate_apply,
+                    _combine_previous,
                     self.aggregator,
+                    self.skipna,
                     (intermediate_name, i - 1),
                     (previous_partitions._name, i - 1),
                 )
             dsk[(self._name, i)] = (
                 _finalize_partition,
                 self.aggregator,
+                self.skipna,
                 (self.frame._name, i),
                 (intermediate_name, i),
             )
